@@ -575,6 +575,13 @@ def cases_c13(rng, thorough):
                     cases.append(mux_case(pipe, G.schedule(rng, lts)))
                     cases.append(src_case(pipe, G.ints([rng.choice([1, 2, 3])
                                                        for _ in range(rng.randint(0, 7))])))
+    # rs.ops.multiplex (no store): stateless pipelines with handlers, and unhandled errors
+    for _ in range(60 if thorough else 16):
+        fail = rng.choice([G.op_map('failIf', 2), G.op_filter('failIfP', 2)])
+        h = rng.choice([None, G.op_simple('ignore'), {'op': 'errmap', 'f': fn('errcode')}, G.op_simple('router')])
+        pipe = [G.op_map('addc', 0), fail] + ([h, G.op_map('mulc', 2)] if h else [])
+        cases.append(src_case(pipe, G.ints([rng.choice([1, 2, 3]) for _ in range(rng.randint(0, 7))]),
+                              root='multiplex'))
     # starmap on pairs
     for hname, hk in handlers[1:]:
         for _ in range(10 if thorough else 3):
